@@ -366,6 +366,22 @@ def index_models(idx_name, label_some, events):
             (r"slice::<impl \[.*\]>::iter$", m_slice_iter), (r"^<PropertyValue as Clone>::clone$|^<std::string::String as Clone>::clone$", m_clone)] + MAP_MODELS
 
 
+MISSING = {
+    "delete-node": ("delete", "a node deleted by the transaction keeps its index entry: commit derives index operations from property writes only, so an "
+                              "index seek still returns the deleted node (a scan does not)"),
+    "add-label": ("insert", "a label added to an existing node that carries the indexed property creates no index entry: an index seek through the new "
+                            "label misses the node (a scan finds it)"),
+    "set-secondary-label": ("insert", "a property written on a node whose indexed label is not its first label creates no index entry (commit consults the "
+                                      "primary label only): an index seek through the other label misses the node (a scan finds it)"),
+}
+NATIVE = {
+    "delete-node": ["A", "x", "MATCH (n:A) WHERE n.x = 1 RETURN count(n) AS c", "CREATE (:A {x:1})", "CREATE (:A {x:1})",
+                    "MATCH (n:A) WITH n LIMIT 1 DETACH DELETE n"],
+    "add-label": ["A", "x", "MATCH (n:A) WHERE n.x = 1 RETURN count(n) AS c", "CREATE (:A {x:1})", "CREATE (:B {x:1})", "MATCH (n:B) SET n:A"],
+    "set-secondary-label": ["B", "x", "MATCH (n:B) WHERE n.x = 1 RETURN count(n) AS c", "CREATE (:B {x:1})", "CREATE (:A:B {x:1})"],
+}
+
+
 def run_index(kind):
     """kind: 'set-existing' (SET on a node that exists), 'set-new' (node created by this transaction), 'remove' (REMOVE on an existing node)."""
     def go(mf, tier):
@@ -377,11 +393,12 @@ def run_index(kind):
         B = lambda n, w=32: z3.BitVec(n, w)     # noqa: E731
         txid, node, key, newv = B("txid", 64), B("node"), B("prop_key"), B("new_value")
         idx_name, idx_id, root0 = B("index_name"), B("index_id"), B("root_before", 64)
-        run_model = Struct("L0RunModel", {0: PyVec(), 1: PyVec(), 2: PyVec()})
+        idx_name2 = B("index_name_of_secondary_label")
+        run_model = Struct("L0RunModel", {0: PyVec(), 1: PyVec([node]) if kind == "delete-node" else PyVec(), 2: PyVec()})
 
         def events(st):
             return [e for e in st.env.get("$trace", []) if e[0] in ("insert", "delete", "flush")]
-        props = PyVec([Tup([node, key, newv])]) if kind in ("set-existing", "set-new") else PyVec()
+        props = PyVec([Tup([node, key, newv])]) if kind in ("set-existing", "set-new", "set-secondary-label") else PyVec()
         removed = PyVec([Tup([node, key])]) if kind == "remove" else PyVec()
 
         def m_props(ex, st, a, dst, callee):
@@ -394,20 +411,55 @@ def run_index(kind):
             index_models(idx_name, True, events) + models(run_model, False)
         st = State()
         eng = {i: Opaque("engine." + n) for i, n in enumerate(efields)}
-        eng[eix["index_catalog"]] = Struct("IndexCatalog", {0: Opaque("catalog-page"), 1: PyVec([Tup([idx_name, Struct("IndexDef", {0: idx_id, 1: Struct("PageId", {0: root0})})])])})
+        # set-secondary-label: the only index is the one on (secondary label, key); `format!` yields the name built from the primary label
+        cat_name = idx_name2 if kind == "set-secondary-label" else idx_name
+        eng[eix["index_catalog"]] = Struct("IndexCatalog", {0: Opaque("catalog-page"), 1: PyVec([Tup([cat_name, Struct("IndexDef", {0: idx_id, 1: Struct("PageId", {0: root0})})])])})
         st.env["$engine"] = Struct("GraphEngine", eng)
         txn = {i: Opaque("txn." + n) for i, n in enumerate(fields)}
         txn[ix["engine"]] = Ref("$engine")
         txn[ix["txid"]] = txid
         txn[ix["created_nodes"]] = PyVec([Tup([B("ext_id", 64), B("created_label"), node])]) if kind == "set-new" else PyVec()
-        txn[ix["pending_label_additions"]] = PyVec()
+        txn[ix["pending_label_additions"]] = PyVec([Tup([node, B("added_label")])]) if kind == "add-label" else PyVec()
         txn[ix["pending_label_removals"]] = PyVec()
         st.env["_1"] = Struct("WriteTxn", txn)
+        if kind == "set-secondary-label":
+            st.pc.append(idx_name != idx_name2)
         vi = variant_index("nervusdb-storage/src/wal.rs", "WalRecord")
         vi.update({"Insert": 0, "Update": 1, "Remove": 2})
         ex = TraceExec(fn, mods, bound=6, mf=mf, inline=r"^$", variant_index=vi, max_paths=5000)
         paths = ex.run("bb0", st)
         failed, n, with_index = [], 0, 0
+        if kind in MISSING:
+            # O6: state changes other than a property write on the primary label that make a node enter / leave an index.
+            # Assumed state: the node carries a value for `key`, and an index on (the label in question, key) exists.
+            want_op, text = MISSING[kind]
+            for p in paths:
+                if p.kind == "panic":
+                    failed.append("commit can panic: %s" % str(p.info)[:70])
+                    continue
+                if p.kind == "bound":
+                    raise Unsupported("commit cut by the loop bound")
+                if p.kind != "return" or not (isinstance(p.ret, Enum) and p.ret.variant == "Ok"):
+                    continue
+                if kind == "set-secondary-label" and "label=None" in p.events:
+                    continue        # the assumed state gives the node two labels
+                n += 1
+                with_index += 1
+                ops = [e for e in events(p.st) if e[0] == want_op and ex.entails(p.pc, e[2] == z3.ZeroExt(32, node))]
+                if not ops:
+                    failed.append(text)
+            res = {"paths": n, "queries": ex.queries, "solver_time_s": round(ex.solver_time, 3),
+                   "sample": ["%s: %d Ok paths; the index B-tree must see a %s for the node" % (kind, n, want_op)],
+                   "functions": ["engine::WriteTxn::commit (index maintenance phase)"]}
+            if failed:
+                from .. import witness as W
+                rep, lines = W.run(["index-diff"] + NATIVE[kind])
+                res.update({"status": "fail", "failed": sorted(set(failed)), "reason": "; ".join(sorted(set(failed)))[:500],
+                            "witness_text": sorted(set(failed)) + ["replay `index-diff %s`: %s" % (" | ".join(NATIVE[kind]), " ".join(lines)[:300])],
+                            "reproduced": True if rep else None})
+            else:
+                res["status"] = "pass"
+            return res
 
         def key_is(kbytes, value):
             want = [z3.Extract(8 * i + 7, 8 * i, idx_id) for i in (3, 2, 1, 0)] + [z3.Extract(8 * i + 7, 8 * i, value) for i in (3, 2, 1, 0)]
@@ -473,6 +525,9 @@ TARGETS += [
     {"name": "c15_o3_q_commit_index_maintenance_set_on_existing_node", "crate": "nervusdb-storage", "run": run_index("set-existing")},
     {"name": "c15_o3_q_commit_index_maintenance_set_on_new_node", "crate": "nervusdb-storage", "run": run_index("set-new")},
     {"name": "c15_o3_q_commit_index_maintenance_remove", "crate": "nervusdb-storage", "run": run_index("remove")},
+    {"name": "c15_o6_q_commit_index_follows_node_delete", "crate": "nervusdb-storage", "run": run_index("delete-node")},
+    {"name": "c15_o6_q_commit_index_follows_label_addition", "crate": "nervusdb-storage", "run": run_index("add-label")},
+    {"name": "c15_o6_q_commit_index_follows_secondary_label", "crate": "nervusdb-storage", "run": run_index("set-secondary-label")},
 ]
 
 
